@@ -31,7 +31,7 @@ type Case struct {
 }
 
 var diffs = []string{"mat-added", "mat-removed", "mat-renamed", "mat-digest", "prod-added", "prod-removed", "prod-renamed", "prod-digest",
-	"prod-alg-renamed", "prod-alg-added", "mat-alg-added"}
+	"prod-alg-renamed", "prod-alg-added", "mat-alg-added", "mat-respelled", "prod-respelled"}
 
 var funcs = []string{"ed1", "ed2", "ed3", "ed4"}
 
@@ -85,6 +85,10 @@ func applyDiff(d string, m, p map[string]intoto.HashObj) {
 		delete(t, k)
 	case "digest":
 		t[k] = intoto.HashObj{"sha256": gen.H(0x78)}
+	case "respelled":
+		// the same file under another spelling of its path: not an identical report
+		t["./"+k] = t[k]
+		delete(t, k)
 	case "alg-renamed":
 		t[k] = intoto.HashObj{"sha512": t[k]["sha256"]}
 	case "alg-added":
@@ -341,7 +345,7 @@ func replay(c *mcx.Ctx, raw json.RawMessage) (string, string) {
 func init() {
 	mcx.Register(&mcx.Driver{
 		ID: "C05", Run: run, Replay: replay,
-		Rule: "full product: layouts with 1..3 steps x the step that has several links x threshold 1..3 x 0/1 valid links beyond the threshold x {no difference, one of 11 single-point differences (material/product path added, removed, renamed, digest changed, algorithm renamed, algorithm added) on link j} x summary name {\"\",x} x {legacy, DSSE}; " +
+		Rule: "full product: layouts with 1..3 steps x the step that has several links x threshold 1..3 x 0/1 valid links beyond the threshold x {no difference, one of 13 single-point differences (material/product path added, removed, renamed, re-spelled as ./path, digest changed, algorithm renamed, algorithm added) on link j} x summary name {\"\",x} x {legacy, DSSE}; " +
 			"plus every non-empty subset of {unsigned, unauthorised, tampered} uncounted links carrying other artifacts x strict/permissive rules; each case under EVERY iteration order of the reference-link pick, the link comparison and the counting loop (the comparison loop and every other map range: one order deviation, for cases with <= 2 links in quick and all cases in thorough; quick has at most 3 links per step, thorough 4). Counted links always differ in command and by-products (which is legitimate). " +
 			"non-trivial = more than one counted link or some uncounted link. states = cases, transitions = choice points passed.",
 		Assumptions: []string{"which links count is known by construction", "iteration order inside dependencies is not owned"},
